@@ -319,6 +319,7 @@ func c14Run(tb *testing.T, t *rapid.T, vk *vkCtx, protos []cpxProto) {
 	// long enough for three catchpoint rounds of the base interval to be committed by a node with MaxAcctLookback 8
 	firstR := (proto.Lookback/interval + 1) * interval
 	nBlocks := int(firstR+2*interval) + 8 + rapid.IntRange(0, 3).Draw(t, "extraBlocks")
+	nBlocks = max(nBlocks, 26) // the last scripted step (round 17) is committed by every node (MaxAcctLookback <= 8)
 
 	ops := []string{"none", "none", "none", "none", "commit", "commit", "reload", "reopen", "park", "flush", "prune"}
 	var script cpxScript
@@ -444,6 +445,39 @@ func c14Run(tb *testing.T, t *rapid.T, vk *vkCtx, protos []cpxProto) {
 	if kvDel > 0 {
 		vk.Label("history:kv-deleted")
 	}
+	// a zero-length box that was in some node's tracker DB and whose deletion was committed by that node in a later flush
+	emptyDel := 0
+	for r := basics.Round(2); r <= w.Model.Latest(); r++ {
+		pre, post := w.Model.At(r-1), w.Model.At(r)
+		for k := range post.Changes.Kv {
+			v, had := pre.Kv[k]
+			if _, has := post.Kv[k]; !had || has || len(v) != 0 {
+				continue
+			}
+			// k: zero-length before round r, deleted in round r; since when zero-length?
+			since := r - 1
+			for since > 0 {
+				if pv, ok := w.Model.At(since - 1).Kv[k]; !ok || len(pv) != 0 {
+					break
+				}
+				since--
+			}
+			for _, cn := range c.nodes {
+				persisted, deleted := false, false
+				for _, d := range cn.dbSeq {
+					persisted = persisted || (d >= since && d < r)
+					deleted = deleted || d >= r
+				}
+				if persisted && deleted {
+					emptyDel++
+				}
+			}
+		}
+	}
+	if emptyDel > 0 {
+		vk.Label("history:persisted-empty-box-deleted-in-later-flush")
+	}
+	vk.Add("persisted-empty-box-deletions", int64(emptyDel))
 	if resDel > 0 {
 		vk.Label("history:account-closed-or-creatable-deleted")
 	}
